@@ -181,7 +181,7 @@ func newInterp(prog *ssa.Program, cfg *Config, sh *shared, stubs map[string]*ssa
 		globals: map[*ssa.Global]*Value{}, inited: map[*ssa.Package]bool{}, consts: map[*ssa.Const]Value{},
 		fnNames: map[*ssa.Function]string{}, methCache: map[methKey]*ssa.Function{}, implCache: map[implKey]bool{},
 		stubs: stubs, inStub: map[string]bool{}, funcsSeen: map[*ssa.Function]int{}, skipInit: skipInit,
-		MaxSteps: cfg.MaxSteps, MaxDepth: cfg.MaxDepth, MaxAlloc: cfg.MaxAlloc, MaxIteLen: 64,
+		MaxSteps: cfg.MaxSteps, MaxDepth: cfg.MaxDepth, MaxAlloc: cfg.MaxAlloc, MaxIteLen: 1024,
 		MapOrderNondet: cfg.MapOrderNondet, Verbose: cfg.Verbose, LogW: os.Stderr, oneShotWins: map[string]int{},
 	}
 	if cfg.Concrete == nil {
